@@ -166,6 +166,7 @@ pub fn run(e: &'static Engine) {
          one of the two documented errors (by match and Display text); per-case watchdog 120 s with re-run in a child process for \
          termination. Non-trivial: Ok, or an error within +-2 characters of a capacity boundary; distinct by case hash.",
     );
+    e.extend_rule("lengths around 2^16..2^20; special tokens and class runs among the raw strings; predecessors that panic or fail; extreme textures; block look-alikes.");
     e.assume("harness profile: opt-level 2 with debug-assertions, overflow-checks and panic=unwind applied to fast_qr");
     crate::engine::run_regress(e, &|c, o| replay(e, c, o));
     // enumerated boundaries
